@@ -64,7 +64,7 @@ theorem auHeader_eq (h : H) : auHeader h = auHdr h.big h.datalength h.fmtWord h.
 
 def pkChunk (big : Bool) (ch : Nat) (ps : List Peak) : List Byte :=
   marker "PEAK" ++ u32 big (8 + 8 * ch) ++ u32 big 1 ++ u32 big 1000000000 ++
-    ps.flatMap fun p => u32 big (Float.f64to32 p.value) ++ u32 big p.position
+    ps.flatMap fun p => u32 big (wrF32 (Float.f64to32 p.value)) ++ u32 big p.position
 
 theorem peakChunk_eq (h : H) (ps : List Peak) : peakChunk h ps = pkChunk h.big h.ch ps := rfl
 
